@@ -1,6 +1,452 @@
-//! C19 — not built yet.
-use crate::rt::*;
+//! C19 — LWE extraction, field trace and packing place coefficients as documented.
+//!
+//! Workload: for one parameter set (two 50..60-bit data primes + a 60-bit special prime, small t /
+//! CKKS scale chosen for the level) two index-revealing plaintexts are encrypted (coefficient
+//! encoding) and
+//!   * every coefficient i is extracted (from the coefficient-form and from the NTT-form ciphertext),
+//!     re-assembled and decrypted: constant coefficient == m_i;
+//!   * the field trace is applied with every parameter l in 0..=log2 N: coefficient j of the result is
+//!     (N/2^l) m_j if (N/2^l) | j and 0 otherwise (API convention verified against lwe.rs: `logn = l`
+//!     leaves 2^l coefficients, the loop runs log2 N - l doubling steps);
+//!   * k extractions (k = 1..=N) are packed: value v_j sits at index j * N/2^ceil(log2 k), zeros elsewhere
+//!     (no scalar factor: the 1/N pre-scaling cancels the doubling of the merge tree and of the trace).
+//! Oracles: the library decryptor and (N <= 256) the independent oracle decryptor; expected vectors
+//! are computed from the plaintext coefficients with u128 arithmetic only.
+//! Every ciphertext the harness gets hold of runs through the C06 validity predicate.
 
-pub fn run(_cfg: &Cfg, _rep: &mut Report) -> PropMeta {
-    PropMeta { id: "C19", level: "exploration", rule: "not built", assumptions: vec![], exhaustive: false, floor: 1 }
+use crate::he::*;
+use crate::props::c06::valid_ct;
+use crate::refm;
+use crate::rt::*;
+use heathcliff::app::lwe::LWECiphertext;
+use heathcliff::*;
+use serde_json::{json, Value};
+
+const P: &str = "C19";
+const SCHEMES: [SchemeType; 3] = [SchemeType::BFV, SchemeType::BGV, SchemeType::CKKS];
+const FAMILIES: usize = 4;
+const ORACLE_MAX_N: usize = 256;
+
+fn log2n(n: usize) -> usize { n.trailing_zeros() as usize }
+
+// ------------------------------------------------------------------ parameter sets
+fn tfam_name(scheme: SchemeType, fam: usize) -> &'static str {
+    if scheme == SchemeType::CKKS { ["scale_max_for_level", "scale_min_for_tolerance", "scale_power_of_ten", "scale_random_between"][fam] }
+    else { ["t_odd_prime_gt_4N", "t_small_prime", "t_power_of_two", "t_batching_prime"][fam] }
+}
+
+fn build_spec(rng: &mut Rng, scheme: SchemeType, n: usize, fam: usize) -> Option<Spec> {
+    let b1 = rng.range(50, 60) as u32;
+    let b2 = rng.range(50, 60) as u32;
+    let qs = coeff_primes(n, &[b1, b2, 60], rng)?;
+    let t = if scheme == SchemeType::CKKS { 0 } else {
+        match fam {
+            0 => { let mut c = 4 * n as u64 + 1 + 2 * rng.below(500); while !refm::is_prime(c) { c += 2; } c }
+            1 => *rng.pick(&[3u64, 17, 257]),
+            2 => 1u64 << rng.range(1, 14),
+            _ => {
+                let logm = log2n(2 * n) as u32;
+                let mut bits = rng.range((logm + 2) as u64, 16.max(logm as u64 + 2)) as u32;
+                loop { if let Some(&c) = ntt_primes_up(n, bits, 1).first() { break c; } bits += 1; if bits > 30 { return None; } }
+            }
+        }
+    };
+    Some(Spec { scheme, n, qs, t, special_flag: false, expand: true, family: tfam_name(scheme, fam).to_string() })
+}
+
+/// index-revealing plaintexts: coefficient j holds j+1 (source 0) / 7(j+1)+3 (source 1) mod t, a third / half of
+/// them negated so that upper-half values occur
+fn msg_int(n: usize, t: u64, which: usize) -> Vec<u64> {
+    (0..n).map(|j| {
+        let (base, upper) = if which == 0 { ((j as u64 + 1) % t, j % 3 == 1) } else { ((7 * (j as u64 + 1) + 3) % t, j % 2 == 0) };
+        if upper { (t - base) % t } else { base }
+    }).collect()
+}
+fn msg_real(n: usize, which: usize) -> Vec<f64> {
+    (0..n).map(|j| {
+        let (base, neg) = if which == 0 { ((j as f64 + 1.0) / n as f64, j % 3 == 1) } else { ((n as f64 - j as f64 - 0.5) / n as f64, j % 2 == 0) };
+        if neg { -base } else { base }
+    }).collect()
+}
+
+// ------------------------------------------------------------------ environment of one case
+#[derive(Clone)]
+enum Msg { Int(Vec<u64>), Real(Vec<f64>) }
+#[derive(Clone)]
+enum Want { Int(Vec<Option<u64>>), Real(Vec<Option<f64>>) }
+
+struct Env<'a> {
+    cfg: &'a Cfg, grp: &'a str, case: u64,
+    kit: &'a Kit,
+    oracle: Option<Oracle>,
+    benc: Option<BatchEncoder>,
+    gk: GaloisKeys,
+    level: usize,
+    scale: f64,
+    /// worst-case noise of a source ciphertext and of one key switch ("e" units: BFV v, BGV (phase-m)/t, CKKS absolute)
+    e_src: f64,
+    ks: f64,
+    log2q: f64,
+    exh: bool,
+}
+
+impl<'a> Env<'a> {
+    fn n(&self) -> usize { self.kit.n() }
+    fn scheme(&self) -> SchemeType { self.kit.spec.scheme }
+    fn sname(&self) -> &'static str { self.kit.spec.scheme_name() }
+    fn is_ckks(&self) -> bool { self.scheme() == SchemeType::CKKS }
+
+    fn viol(&self, rep: &mut Report, op: &str, class: &str, kind: &str, detail: String, info: &Value) {
+        rep.violation(&format!("{}|{}|{}|{}", P, op, class, kind),
+            format!("{} ; input {} ; level {} ; params {}", detail, info, self.level, self.kit.spec.describe()),
+            replay_json(self.cfg, self.grp, self.case, json!({"params": self.kit.spec.describe(), "op": op, "class": class, "input": info, "level": self.level, "scale": self.scale})));
+    }
+
+    /// C06-style validity of a ciphertext handed out by the library
+    fn validity(&self, rep: &mut Report, op: &str, class: &str, ct: &Ciphertext, info: &Value) -> bool {
+        rep.count("intermediate_validity_checks", &format!("{}|{}", self.sname(), op));
+        let mut ok = true;
+        if let Err(e) = valid_ct(self.kit, ct) { ok = false; self.viol(rep, op, class, "invalid_result", format!("ciphertext fails the independent validity predicate: {}", e), info); }
+        if !ct.is_valid_for(&self.kit.ctx) { ok = false; self.viol(rep, op, &format!("{}|is_valid_for", class), "invalid_result", "ciphertext is not is_valid_for the context".into(), info); }
+        if ct.size() != 2 || ct.parms_id() != self.kit.levels[self.level].parms_id() { ok = false; self.viol(rep, op, &format!("{}|shape", class), "invalid_result", format!("size {} / level changed", ct.size()), info); }
+        ok
+    }
+
+    /// decrypt with the library in the representation its decryptor accepts
+    fn lib_decrypt(&self, ct: &Ciphertext) -> Result<Msg, Panicked> {
+        let n = self.n();
+        lib(|| {
+            let c = match (self.scheme(), ct.is_ntt_form()) {
+                (SchemeType::BFV, true) => self.kit.eval.transform_from_ntt_new(ct),
+                (SchemeType::BFV, false) => ct.clone(),
+                (_, false) => self.kit.eval.transform_to_ntt_new(ct),
+                (_, true) => ct.clone(),
+            };
+            let p = self.kit.dec.decrypt_new(&c);
+            if self.is_ckks() { Msg::Real(self.kit.ckks.as_ref().unwrap().decode_polynomial_new(&p)) }
+            else { let mut v = self.benc.as_ref().unwrap().decode_polynomial_new(&p); v.resize(n, 0); Msg::Int(v) }
+        })
+    }
+
+    fn oracle_decrypt(&self, ct: &Ciphertext) -> Option<(Msg, f64)> {
+        let o = self.oracle.as_ref()?;
+        Some(match self.scheme() {
+            SchemeType::BFV => { let (m, b, _) = o.bfv(&self.kit.ctx, ct, self.kit.t()); (Msg::Int(m), b as f64) }
+            SchemeType::BGV => { let (m, b, _) = o.bgv(&self.kit.ctx, ct, self.kit.t()); (Msg::Int(m), b as f64) }
+            _ => (Msg::Real(o.ckks_coeffs(&self.kit.ctx, ct)), 0.0),
+        })
+    }
+
+    /// is the worst-case noise `e` (with plaintext multiplier c) far enough below the decryption threshold?
+    fn precondition(&self, e: f64, c: f64) -> (bool, f64) {
+        if self.is_ckks() {
+            let mag = (c * self.scale + 2.0 * e + 1.0).log2() + 2.0;
+            let effective = self.tol(e, c, c) <= 0.25 / self.n() as f64;
+            (mag < self.log2q && effective, self.log2q - mag)
+        } else {
+            let t = self.kit.t() as f64;
+            let need = 4.0 + t.log2() + (2.0 * e + (c + 1.0) * t + 1.0).log2();
+            (need < self.log2q, self.log2q - need)
+        }
+    }
+    /// CKKS tolerance on one coefficient whose exact value is x: noise (with a factor 2 of margin), encoder rounding
+    /// (c/2), word-wise double rounding of the decoder (2^13/scale absolute, 2^-48 relative)
+    fn tol(&self, e: f64, c: f64, x: f64) -> f64 { (2.0 * e + 0.5 * c + 8192.0) / self.scale + x.abs() * 2f64.powi(-48) }
+
+    fn compare(&self, got: &Msg, want: &Want, e: f64, c: f64) -> Result<f64, String> {
+        match (got, want) {
+            (Msg::Int(g), Want::Int(w)) => {
+                if g.len() != w.len() { return Err(format!("length {} != {}", g.len(), w.len())); }
+                let bad: Vec<usize> = (0..w.len()).filter(|&j| w[j].map_or(false, |x| x != g[j])).collect();
+                if bad.is_empty() { Ok(0.0) } else {
+                    let j = bad[0];
+                    Err(format!("{} of {} asserted coefficients differ; first at index {}: got {} expected {} ; got[..16]={:?} expected[..16]={:?}", bad.len(), w.iter().filter(|x| x.is_some()).count(), j, g[j], w[j].unwrap(),
+                        &g[..g.len().min(16)], &w[..w.len().min(16)]))
+                }
+            }
+            (Msg::Real(g), Want::Real(w)) => {
+                if g.len() != w.len() { return Err(format!("length {} != {}", g.len(), w.len())); }
+                let mut worst = 0.0f64; let mut first: Option<usize> = None;
+                for j in 0..w.len() { if let Some(x) = w[j] {
+                    let r = (g[j] - x).abs() / self.tol(e, c, x);
+                    if !(r <= 1.0) && first.is_none() { first = Some(j); }
+                    if r > worst || r.is_nan() { worst = r; }
+                } }
+                match first { None => Ok(worst), Some(j) => Err(format!("coefficient {} is {:e}, expected {:e} (tolerance {:e}); worst error/tolerance {:e} ; got[..8]={:?} expected[..8]={:?}", j, g[j], w[j].unwrap(), self.tol(e, c, w[j].unwrap()), worst,
+                    &g[..g.len().min(8)], &w[..w.len().min(8)])) }
+            }
+            _ => Err("decoded kind mismatch".into()),
+        }
+    }
+
+    /// decide one result ciphertext; returns the library's decoded vector for samples
+    fn judge(&self, rep: &mut Report, op: &str, class: &str, ct: &Ciphertext, want: &Want, e: f64, c: f64, info: &Value) -> Option<Msg> {
+        self.validity(rep, op, class, ct, info);
+        let (pre, margin) = self.precondition(e, c);
+        let got = match self.lib_decrypt(ct) {
+            Ok(g) => g,
+            Err(p) => { self.viol(rep, op, &format!("{}|decrypt", class), "panic", format!("decrypting the result panicked: {}", p.0), info); return None; }
+        };
+        if !pre { rep.out_of_precondition += 1; rep.count("out_of_precondition", &format!("{}|N={}|{}|L{}", self.sname(), self.n(), op, self.level)); return Some(got); }
+        rep.min(&format!("margin_bits_{}_{}", self.sname(), op), margin);
+        match self.compare(&got, want, e, c) {
+            Ok(r) => { if self.is_ckks() { rep.max(&format!("ckks_error_over_tolerance_{}", op), r); } }
+            Err(d) => self.viol(rep, op, class, "value", format!("library decryption of the result: {}", d), info),
+        }
+        if let Some((og, budget)) = self.oracle_decrypt(ct) {
+            rep.count("oracle", &format!("{}|oracle_decryptor+library", op));
+            if !self.is_ckks() && op != "extract_assemble" { rep.min(&format!("oracle_budget_bits_{}_{}", self.sname(), op), budget); }
+            if let Err(d) = self.compare(&og, want, e, c) { self.viol(rep, op, &format!("{}|oracle", class), "value", format!("oracle decryption of the result: {}", d), info); }
+        } else { rep.count("oracle", &format!("{}|library_only", op)); }
+        if self.exh { rep.count("exhaustive_asserted", &format!("{}|N={}|{}", self.sname(), self.n(), op)); }
+        Some(got)
+    }
+
+    fn lwe_wellformed(&self, rep: &mut Report, class: &str, lwe: &LWECiphertext, src: &Ciphertext, info: &Value) {
+        let qs = self.kit.level_qs(self.level); let n = self.n();
+        let mut bad: Option<String> = None;
+        if lwe.c0().len() != qs.len() || lwe.c1().len() != qs.len() * n || lwe.coeff_modulus_size() != qs.len() || lwe.poly_modulus_degree() != n { bad = Some("dimensions".into()); }
+        else if lwe.parms_id() != src.parms_id() || lwe.scale().to_bits() != src.scale().to_bits() || lwe.correction_factor() != src.correction_factor() { bad = Some("level / scale / correction factor not carried over".into()); }
+        else { for (i, &q) in qs.iter().enumerate() { if lwe.c0()[i] >= q || lwe.c1()[i * n..(i + 1) * n].iter().any(|&x| x >= q) { bad = Some(format!("residue >= modulus {}", q)); break; } } }
+        if let Some(b) = bad { self.viol(rep, "extract_lwe", class, "invalid_result", format!("extracted LWE ciphertext malformed: {}", b), info); }
+    }
+}
+
+fn msg_head(m: &Msg, k: usize) -> Value { match m { Msg::Int(v) => json!(v[..v.len().min(k)]), Msg::Real(v) => json!(v[..v.len().min(k)]) } }
+
+fn k_set(n: usize, rng: &mut Rng, cap_pow: usize) -> Vec<usize> {
+    let mut v = vec![1, 2, n - 1, n];
+    let mut p = 2usize; let mut cnt = 0;
+    while p <= n { if cnt < cap_pow || p * 2 >= n { v.push(p); v.push(p + 1); v.push(p - 1); } p *= 2; cnt += 1; }
+    for _ in 0..2 { v.push(rng.range(1, n as u64) as usize); }
+    v.retain(|&k| k >= 1 && k <= n); v.sort(); v.dedup(); v
+}
+fn k_class(k: usize, n: usize) -> &'static str {
+    if k == 1 { "k=1" } else if k == n { "k=N" } else if k.is_power_of_two() { "k=2^j" } else if (k - 1).is_power_of_two() { "k=2^j+1" } else if (k + 1).is_power_of_two() { "k=2^j-1" } else { "k=other" }
+}
+fn l_class(l: usize, n: usize) -> &'static str { if l == 0 { "l=0" } else if l == log2n(n) { "l=log2N" } else { "0<l<log2N" } }
+
+// ------------------------------------------------------------------ one case
+fn one_case(cfg: &Cfg, grp: &str, case: u64, rng: &mut Rng, rep: &mut Report, scheme: SchemeType, n: usize, fam: usize, level_req: usize, exh: bool) {
+    let Some(spec) = build_spec(rng, scheme, n, fam) else { rep.count("generator", "no_parameters"); return; };
+    let kit = match Kit::new(&spec) { Ok(k) => k, Err(e) => { rep.count("generator", "context_rejected"); rep.note(&format!("rejected: {}", e.chars().take(100).collect::<String>())); return; } };
+    if !kit.has_keyswitching() || kit.levels.len() < 2 { rep.count("generator", "no_keyswitching_or_single_level"); return; }
+    rep.count("generator", "context_ok");
+    let level = level_req.min(kit.levels.len() - 1);
+    let sname = spec.scheme_name();
+    let lqs = kit.level_qs(level);
+    let log2q: f64 = lqs.iter().map(|&q| (q as f64).log2()).sum();
+    let pspecial = *kit.key_qs().last().unwrap() as f64;
+    let nf = n as f64;
+    let ks = ERR_MAX * nf * lqs.iter().map(|&q| q as f64).sum::<f64>() / pspecial + 2.0 * (nf + 1.0) + 1.0;
+    let e_src = fresh_noise_bound(n, true) + nf + 2.0;
+    // CKKS scale: `cap` keeps N * scale 2^4 below the level's modulus and |v| * scale < 2^63; `smin` is the smallest
+    // power of two for which the worst-case tolerance of every operation of this case stays below 1/(4N)
+    let scale = if scheme != SchemeType::CKKS { 1.0 } else {
+        let cap = (log2q.floor() - log2n(n) as f64 - 4.0).min(58.0);
+        let e_worst = (e_src + ks * (nf * nf - 1.0) / 3.0).max(nf * e_src + (nf - 1.0) * ks);
+        let smin = ((4.0 * nf * (2.0 * e_worst + 0.5 * nf + 8192.0)).log2().ceil() + 1.0).min(cap);
+        match fam {
+            0 => 2f64.powf(cap),
+            1 => 2f64.powf(smin),
+            2 => { let mut s10 = 10f64.powf((smin * 2f64.log10()).ceil()); if s10.log2() > cap { s10 = 2f64.powf(cap) * 0.75; } s10 } // not a power of two
+            _ => 2f64.powf(smin + rng.range(0, (cap - smin).max(0.0) as u64) as f64),
+        }
+    };
+    let oracle = if n <= ORACLE_MAX_N { match Oracle::new(&kit.ctx, &kit.sk) { Ok(o) => Some(o), Err(e) => { rep.harness_errors.push(format!("oracle construction failed: {}", e)); return; } } } else { None };
+    let benc = if scheme != SchemeType::CKKS { match lib(|| BatchEncoder::new(kit.ctx.clone())) { Ok(b) => Some(b), Err(p) => { rep.harness_errors.push(format!("BatchEncoder::new panicked: {}", p.0)); return; } } } else { None };
+    let cell = json!({"scheme": sname, "n": n, "family": spec.family, "level": level});
+    let gk = match lib(|| kit.keygen.create_automorphism_keys(false)) {
+        Ok(g) => g,
+        Err(p) => { rep.violation(&format!("{}|create_automorphism_keys|{}|panic", P, sname), format!("panicked: {} ; {}", p.0, spec.describe()), replay_json(cfg, grp, case, cell)); return; }
+    };
+    let env = Env { cfg, grp, case, kit: &kit, oracle, benc, gk, level, scale, e_src, ks, log2q, exh };
+    rep.count("params", &format!("{}|N={}|{}|L{}", sname, n, spec.family, level));
+    let logn = log2n(n);
+    // the automorphism key set must contain exactly the elements 2^j+1, j = 1..=log2 N
+    for j in 1..=logn { if !env.gk.has_key((1usize << j) + 1) { env.viol(rep, "create_automorphism_keys", sname, "value", format!("key for Galois element {} missing", (1usize << j) + 1), &cell); return; } }
+
+    // ---- sources: two ciphertexts, each in coefficient and NTT form
+    let msgs: Vec<Msg> = (0..2).map(|w| if env.is_ckks() { Msg::Real(msg_real(n, w)) } else { Msg::Int(msg_int(n, kit.t(), w)) }).collect();
+    let level_id = *kit.levels[level].parms_id();
+    let mut src: Vec<[Ciphertext; 2]> = vec![]; // [coefficient form, ntt form]
+    for (w, m) in msgs.iter().enumerate() {
+        let r = lib(|| {
+            let fresh = match m {
+                Msg::Real(v) => kit.enc.encrypt_new(&kit.ckks.as_ref().unwrap().encode_f64_polynomial_new(v, Some(level_id), scale)),
+                Msg::Int(v) => { let c = kit.enc.encrypt_new(&env.benc.as_ref().unwrap().encode_polynomial_new(v)); if level == 1 { kit.eval.mod_switch_to_next_new(&c) } else { c } }
+            };
+            if fresh.is_ntt_form() { [kit.eval.transform_from_ntt_new(&fresh), fresh] } else { let t = kit.eval.transform_to_ntt_new(&fresh); [fresh, t] }
+        });
+        let pair = match r { Ok(p) => p, Err(p) => { rep.count("source", "encode_or_encrypt_panicked"); rep.note(&format!("source construction panicked (not C19's subject): {}", p.0.chars().take(120).collect::<String>())); return; } };
+        // the source itself must decrypt to the plaintext, otherwise nothing below is meaningful (C01's subject)
+        let want = match m { Msg::Int(v) => Want::Int(v.iter().map(|&x| Some(x)).collect()), Msg::Real(v) => Want::Real(v.iter().map(|&x| Some(x)).collect()) };
+        let info = json!({"source": w});
+        for (f, ct) in pair.iter().enumerate() {
+            env.validity(rep, "source", &format!("{}|{}", sname, if f == 0 { "coef" } else { "ntt" }), ct, &info);
+            let ok = env.lib_decrypt(ct).ok().map_or(false, |g| env.compare(&g, &want, e_src, 1.0).is_ok());
+            if !ok { rep.count("source", "does_not_decrypt_to_plaintext"); return; }
+        }
+        rep.count("source", "ok");
+        src.push(pair);
+    }
+    // six fully written-out samples: N = 8, one operation per (scheme, level) cell
+    let sample_op: &str = if exh && n == 8 && fam == (if level == 0 { 0 } else { 1 }) {
+        match (scheme, level) { (SchemeType::BFV, 0) | (SchemeType::BGV, 1) => "extract", (SchemeType::BGV, 0) | (SchemeType::CKKS, 1) => "trace", _ => "pack" }
+    } else { "" };
+
+    // ---- (1) extraction + re-assembly, every requested index, both representations of source 0
+    let is: Vec<usize> = if exh { (0..n).collect() } else {
+        let mut v = vec![0, 1, 2, n / 2 - 1, n / 2, n / 2 + 1, n - 2, n - 1];
+        for _ in 0..4 { v.push(rng.usize_below(n)); }
+        v.retain(|&i| i < n); v.sort(); v.dedup(); v
+    };
+    let mut sampled_extract = false;
+    for &i in &is {
+        for (f, repr) in ["coef", "ntt"].iter().enumerate() {
+            let class = format!("{}|{}|{}", sname, repr, if i == 0 { "i=0" } else { "i>0" });
+            let info = json!({"i": i, "representation": repr, "source": 0});
+            rep.count("extract", &format!("{}|N={}|{}|L{}", sname, n, repr, level));
+            rep.eval(Some(&format!("{}|N={}|extract|{}|i={}|L{}", sname, n, repr, i, level)));
+            let lwe = match lib(|| kit.eval.extract_lwe(&src[0][f], i)) { Ok(l) => l, Err(p) => { env.viol(rep, "extract_lwe", &class, "panic", format!("panicked: {}", p.0), &info); continue; } };
+            env.lwe_wellformed(rep, &class, &lwe, &src[0][f], &info);
+            let asm = match lib(|| kit.eval.assemble_lwe(&lwe)) { Ok(c) => c, Err(p) => { env.viol(rep, "assemble_lwe", &class, "panic", format!("panicked: {}", p.0), &info); continue; } };
+            let want = match &msgs[0] {
+                Msg::Int(v) => Want::Int((0..n).map(|j| if j == 0 { Some(v[i]) } else { None }).collect()),
+                Msg::Real(v) => Want::Real((0..n).map(|j| if j == 0 { Some(v[i]) } else { None }).collect()),
+            };
+            let got = env.judge(rep, "extract_assemble", &class, &asm, &want, e_src, 1.0, &info);
+            if sample_op == "extract" && !sampled_extract && i == n - 1 { if let Some(g) = got {
+                sampled_extract = true;
+                rep.sample(json!({"op": "extract_lwe+assemble_lwe", "params": spec.describe(), "level": level, "scale": scale, "plaintext_head": msg_head(&msgs[0], 16), "i": i, "representation": repr,
+                    "expected_constant_coefficient": match &msgs[0] { Msg::Int(v) => json!(v[i]), Msg::Real(v) => json!(v[i]) }, "observed_decryption_head": msg_head(&g, 4)}));
+            } }
+        }
+    }
+
+    // ---- (2) field trace with every parameter l (input representation: the one key switching accepts)
+    let trace_in = if scheme == SchemeType::BFV { &src[0][0] } else { &src[0][1] };
+    for l in 0..=logn {
+        let c = n >> l; // N / 2^l
+        let class = format!("{}|{}", sname, l_class(l, n));
+        let info = json!({"l": l, "source": 0});
+        rep.count("trace", &format!("{}|N={}|l={}|L{}", sname, n, l, level));
+        rep.eval(Some(&format!("{}|N={}|trace|l={}|L{}", sname, n, l, level)));
+        let r = lib(|| { let mut x = trace_in.clone(); kit.eval.field_trace_inplace(&mut x, &env.gk, l); x });
+        let out = match r { Ok(x) => x, Err(p) => { env.viol(rep, "field_trace", &class, "panic", format!("panicked: {}", p.0), &info); continue; } };
+        let cf = c as f64;
+        let e = cf * e_src + (cf - 1.0) * ks;
+        let want = match &msgs[0] {
+            Msg::Int(v) => { let t = kit.t(); Want::Int((0..n).map(|j| Some(if j % c == 0 { ((c as u128 * v[j] as u128) % t as u128) as u64 } else { 0 })).collect()) }
+            Msg::Real(v) => Want::Real((0..n).map(|j| Some(if j % c == 0 { cf * v[j] } else { 0.0 })).collect()),
+        };
+        let got = env.judge(rep, "field_trace", &class, &out, &want, e, cf, &info);
+        if sample_op == "trace" && l == 1 { if let Some(g) = got {
+            rep.sample(json!({"op": "field_trace_inplace", "params": spec.describe(), "level": level, "scale": scale, "plaintext_head": msg_head(&msgs[0], 16), "l": l, "multiplier_N_over_2^l": c, "observed_decryption_head": msg_head(&g, 16)}));
+        } }
+    }
+    if scheme == SchemeType::BFV {
+        // outside the property: an NTT-form BFV operand is refused by key switching; record what happens
+        let r = lib(|| { let mut x = src[0][1].clone(); kit.eval.field_trace_inplace(&mut x, &env.gk, 0); x });
+        rep.count("trace_bfv_ntt_form_operand", if r.is_ok() { "accepted" } else { "refused" });
+    }
+
+    // ---- (3) packing k extractions; LWE j comes from source j%2, representation (j/2)%2, coefficient (a j + b) mod N
+    let a = 2 * rng.usize_below(n / 2) + 1; let b = rng.usize_below(n);
+    let ks_list: Vec<usize> = if exh { (1..=n).collect() } else { k_set(n, rng, if n >= 2048 { 7 } else { 64 }) };
+    let kmax = *ks_list.last().unwrap();
+    let mut lwes: Vec<LWECiphertext> = Vec::with_capacity(kmax);
+    let mut vals_i: Vec<u64> = vec![]; let mut vals_r: Vec<f64> = vec![];
+    for j in 0..kmax {
+        let (w, f, i) = (j % 2, (j / 2) % 2, (a * j + b) % n);
+        match lib(|| kit.eval.extract_lwe(&src[w][f], i)) {
+            Ok(l) => lwes.push(l),
+            Err(p) => { env.viol(rep, "extract_lwe", &format!("{}|{}|{}", sname, if f == 0 { "coef" } else { "ntt" }, if i == 0 { "i=0" } else { "i>0" }), "panic", format!("panicked: {}", p.0), &json!({"i": i, "source": w})); return; }
+        }
+        match &msgs[w] { Msg::Int(v) => vals_i.push(v[i]), Msg::Real(v) => vals_r.push(v[i]) }
+    }
+    for &k in &ks_list {
+        let mut big_l = 0usize; while (1usize << big_l) < k { big_l += 1; }
+        let stride = n >> big_l;
+        let class = format!("{}|{}", sname, k_class(k, n));
+        let info = json!({"k": k, "index_map": format!("lwe j = coefficient ({}*j+{}) mod N of source j%2", a, b)});
+        rep.count("pack", &format!("{}|N={}|{}|L{}", sname, n, k_class(k, n), level));
+        rep.eval(Some(&format!("{}|N={}|pack|k={}|L{}", sname, n, k, level)));
+        let out = match lib(|| kit.eval.pack_lwe_ciphertexts(&lwes[..k], &env.gk)) { Ok(x) => x, Err(p) => { env.viol(rep, "pack_lwe_ciphertexts", &class, "panic", format!("panicked: {}", p.0), &info); continue; } };
+        // merge layer: W' = 4W + ks (W_0 = 0); then log2 N - L trace steps W' = 2W + ks; the leaf's own noise arrives unscaled
+        let ctr = stride as f64;
+        let e = e_src + ks * (ctr * ((1u128 << (2 * big_l)) as f64 - 1.0) / 3.0 + (ctr - 1.0));
+        let want = if env.is_ckks() {
+            let mut w = vec![Some(0.0f64); n]; for j in 0..k { w[j * stride] = Some(vals_r[j]); } Want::Real(w)
+        } else {
+            let mut w = vec![Some(0u64); n]; for j in 0..k { w[j * stride] = Some(vals_i[j]); } Want::Int(w)
+        };
+        let got = env.judge(rep, "pack_lwe", &class, &out, &want, e, 1.0, &info);
+        if sample_op == "pack" && k == 3 { if let Some(g) = got {
+            rep.sample(json!({"op": "pack_lwe_ciphertexts", "params": spec.describe(), "level": level, "scale": scale, "k": k, "stride": stride,
+                "packed_values": if env.is_ckks() { json!(vals_r[..k]) } else { json!(vals_i[..k]) }, "observed_decryption_head": msg_head(&g, 16)}));
+        } }
+    }
+    rep.max(&format!("pack_count_max_N={}", n), kmax as f64);
+}
+
+// ------------------------------------------------------------------ driver
+fn exhaustive_expected(ns: &[usize]) -> Vec<(String, u64)> {
+    let per_scheme = (FAMILIES * 2) as u64;
+    let mut v = vec![];
+    for &n in ns { for s in SCHEMES { let sn = scheme_name(s);
+        v.push((format!("{}|N={}|extract_assemble", sn, n), per_scheme * 2 * n as u64));
+        v.push((format!("{}|N={}|field_trace", sn, n), per_scheme * (log2n(n) as u64 + 1)));
+        v.push((format!("{}|N={}|pack_lwe", sn, n), per_scheme * n as u64));
+    } }
+    v
+}
+
+pub fn run(cfg: &Cfg, rep: &mut Report) -> PropMeta {
+    // (A) exhaustive sub-space: every N in the list x scheme x {4 plain-modulus / scale families} x {first, second data level},
+    //     inside each case every index i (both representations), every l, every k
+    let ns_exh: Vec<usize> = cfg.pick(vec![4, 8, 16, 32], vec![4, 8, 16, 32, 64]);
+    let per_n = 3 * FAMILIES * 2;
+    run_cases(cfg, "exhaustive", (ns_exh.len() * per_n) as u64, rep, |i, rng, rep| {
+        let i = i as usize;
+        let n = ns_exh[i / per_n]; let r = i % per_n;
+        one_case(cfg, "exhaustive", i as u64, rng, rep, SCHEMES[r % 3], n, (r / 3) % FAMILIES, r / (3 * FAMILIES), true);
+    });
+    // (B) sampled: larger N, all l, boundary + random i, k in {1,2,2^j,2^j+-1,N-1,N} + random
+    let ns_s: Vec<usize> = cfg.pick(vec![64, 128, 256, 512, 1024], vec![128, 256, 512, 1024, 2048, 4096]);
+    let reps = cfg.n(6, 8);
+    run_cases(cfg, "sampled", (ns_s.len() * 3 * reps) as u64, rep, |i, rng, rep| {
+        let iu = i as usize;
+        let n = ns_s[iu % ns_s.len()]; let scheme = SCHEMES[(iu / ns_s.len()) % 3];
+        let fam = rng.usize_below(FAMILIES);
+        // CKKS on the single-prime level cannot meet the tolerance for N >= 1024 (worst-case key-switch noise vs. scale): mostly stay on the first level there
+        let mut level = if rng.chance(1, 3) { 1 } else { 0 };
+        if scheme == SchemeType::CKKS && n >= 1024 && rng.chance(3, 4) { level = 0; }
+        one_case(cfg, "sampled", i, rng, rep, scheme, n, fam, level, false);
+    });
+    // was the finite space of (A) enumerated and asserted completely?
+    let mut complete = cfg.only_case.is_none() && rep.harness_errors.is_empty();
+    if complete {
+        let tab = rep.tables.get("exhaustive_asserted").cloned();
+        for (key, want) in exhaustive_expected(&ns_exh) {
+            let got = tab.as_ref().and_then(|t| t.get(&key)).copied().unwrap_or(0);
+            if got != want { complete = false; rep.note(&format!("exhaustive cell {} asserted {} of {}", key, got, want)); }
+        }
+    }
+    rep.note(if complete { "exhaustive sub-space enumerated and asserted completely" } else { "exhaustive sub-space NOT complete in this run" });
+    PropMeta {
+        id: "C19", level: "exploration",
+        rule: cfg.pick(
+            "(A) exhaustive: N in {4,8,16,32} x {BFV,BGV,CKKS} x input representation {coefficient, NTT} x every coefficient index i in [0,N) (extract_lwe + assemble_lwe), every trace parameter l in [0,log2 N] (field_trace_inplace), every pack count k in [1,N] (pack_lwe_ciphertexts), each repeated for 4 plain-modulus/scale families x 2 data levels with random 50..60-bit primes; (B) sampled: N in {64..1024}, all l, boundary+random i, k in {1,2,2^j,2^j+-1,N-1,N}+random. Index-revealing plaintexts, library decryptor and (N<=256) oracle decryptor. distinct = distinct (scheme, N, operation, parameter value, level) cells",
+            "(A) exhaustive: N in {4,8,16,32,64} x {BFV,BGV,CKKS} x input representation {coefficient, NTT} x every coefficient index i in [0,N) (extract_lwe + assemble_lwe), every trace parameter l in [0,log2 N] (field_trace_inplace), every pack count k in [1,N] (pack_lwe_ciphertexts), each repeated for 4 plain-modulus/scale families x 2 data levels with random 50..60-bit primes; (B) sampled: N in {128..4096}, all l, boundary+random i, k in {1,2,2^j,2^j+-1,N-1,N}+random (at N>=2048 the 2^j+-1 triples only for j<=7 and j>=log2 N-1). Index-revealing plaintexts, library decryptor and (N<=256) oracle decryptor. distinct = distinct (scheme, N, operation, parameter value, level) cells"),
+        assumptions: vec![
+            "asserted only when the analytic worst case is below the threshold: source noise 21(2N+1)+N+2, one key switch 21*N*sum(q_i)/P + 2(N+1)+1, trace c*e+(c-1)*ks, packing (L=ceil(log2 k)) e+ks*((N/2^L)(4^L-1)/3+N/2^L-1), all doubled, and 16*t*(2e+(c+1)t+1) < q_level (BFV/BGV) resp. c*scale*4 < q_level and tolerance <= 1/(4N) (CKKS); other cases are executed and counted out_of_precondition".into(),
+            "CKKS tolerance per coefficient: (2e + c/2 + 2^13)/scale + 2^-48*|expected| (noise bound, encoder rounding, the decoder's word-wise double rounding)".into(),
+            "field trace is exercised in the representation key switching accepts (BFV coefficient form, BGV/CKKS NTT form); an NTT-form BFV operand is refused and only recorded".into(),
+            "oracle decryptor (N<=256) trusts refm::intt_ref with the library's published root (C09 checks it)".into(),
+            "parameter sets inside the exhaustive cells (primes, t, scale) are drawn at random per case, they are not part of the enumerated space".into(),
+        ],
+        exhaustive: complete,
+        floor: cfg.pick(3000, 8000),
+    }
 }
